@@ -125,7 +125,8 @@ class Ctx:
 
     def finish(self):
         wall = time.time() - self.t0
-        os.makedirs(os.path.join(VERIF, "evidence"), exist_ok=True)
+        evdir = os.environ.get("VERIF_EVIDENCE_DIR") or os.path.join(VERIF, "evidence")
+        os.makedirs(evdir, exist_ok=True)
         cov = {
             "evaluations": int(self.evaluations),
             "distinct_nontrivial": int(len(self.distinct)),
@@ -144,7 +145,7 @@ class Ctx:
         ev = {"property_id": self.pid, "tier": "thorough" if self.tier == "thorough" else "quick",
               "seed": int(self.seed), "level": self.level, "coverage": cov,
               "assumptions": self.assumptions, "wall_s": round(wall, 2), "violations": len(self.violations)}
-        with open(os.path.join(VERIF, "evidence", self.pid + ".json"), "w") as fh:
+        with open(os.path.join(evdir, self.pid + ".json"), "w") as fh:
             json.dump(ev, fh, indent=1, default=str)
         for d in self.drift:
             print("DRIFT: property=%s %s" % (self.pid, d))
@@ -152,7 +153,7 @@ class Ctx:
             print("KNOWN-FINDING: property=%s %s (%s; observed %d times, first: %s)" % (
                 self.pid, v["finding"]["what"], k, v["count"], _short(v["first"])))
         if self.violations:
-            rd = os.path.join(VERIF, "replays", self.pid)
+            rd = os.path.join(os.environ.get("VERIF_REPLAY_DIR") or os.path.join(VERIF, "replays"), self.pid)
             os.makedirs(rd, exist_ok=True)
             seen = set()
             for v in self.violations:
